@@ -55,7 +55,18 @@ def check(tier, replay=None):
         info = run_tlc(os.path.join(SPEC, module + ".tla"), os.path.join(SPEC, module + ".cfg"), swd,
                        env={"MODE": mode, "FILE": f}, timeout=1800)
         cells = sum(1 for _ in open(f))
-        badcells = [l for l in info["out"].splitlines() if l.startswith('<<"BADCELL"')]
+        # PrintT may wrap the tuple over several lines: take the text from each BADCELL marker up to the closing >>
+        out = info["out"]
+        badcells = []
+        pos = out.find('"BADCELL"')
+        while pos >= 0:
+            end = out.find(">>", pos)
+            end2 = out.find("\nError", pos)
+            stop = min(x for x in (end2 if end2 >= 0 else len(out), pos + 1500))
+            badcells.append(" ".join(out[pos:stop].split()))
+            pos = out.find('"BADCELL"', pos + 10)
+        if not badcells and "Invariant CellOk is violated" in out:
+            badcells.append("Invariant CellOk is violated (cell not printed)")
         if info["rc"] != 0 and not badcells:
             raise ToolError("TablesCheck failed on %s:\n%s" % (f, info["out"][-1500:]))
         return mode, f, cells, badcells, info
